@@ -90,30 +90,40 @@ CLAUSE_OF = {
 def layout_for(case) -> tuple[dict, dict]:
     """(layout for c14_fs.materialise, load options) of a case."""
     pair, placement = case["pair"], case["placement"]
-    r = gp.render_module(pair["R"], "R", TOP)
+    # wildcard-provided members (pair["W"], defined in p/_impl.py, imported with `from p._impl import *`):
+    # case["wild"] says which runtime modules get the import: "all", or only those whose stubs are merged by
+    # _load_package after wildcard expansion ("load-package": top __init__ with __init__.pyi, -stubs packages)
+    wild = case.get("wild") if pair.get("W") and placement != "top-module" else None
+    wild_primary = wild == "all" or (wild == "load-package" and placement in ("package", "stubs-pkg"))
+    wild_deep = wild == "all" or (wild == "load-package" and placement == "stubs-pkg")
+    r = gp.render_module(pair["R"], "R", TOP, wildcard=wild_primary)
+    r_deep = gp.render_module(pair["R"], "R", TOP, wildcard=wild_deep)
     s = gp.render_module(pair["S"], "S", TOP)
-    other = gp.render_other()
+    common = {f"{gp.OTHER}.py": gp.render_other()}
+    if wild_primary or wild_deep:
+        common[f"{gp.IMPL}.py"] = gp.render_impl(pair, TOP)
+    opts = {"deep": True, "wild_primary": wild_primary, "wild_deep": wild_deep}
     # every package placement also holds the same pair two levels down: p/sub/deep.py + deep.pyi (for the -stubs
     # placement the stubs are p-stubs/sub/deep.pyi below a stub-only sub-package p-stubs/sub/__init__.pyi)
-    deep = {"__init__.py": "", "deep.py": r, "deep.pyi": s}
+    deep = {"__init__.py": "", "deep.py": r_deep, "deep.pyi": s}
     if placement == "sibling":
-        paths = [{TOP: {"__init__.py": "", "m.py": r, "m.pyi": s, f"{gp.OTHER}.py": other, "sub": dict(deep)}}]
-        return {"paths": paths, "extra": None, "pth": None}, {"target": "m", "deep": True}
+        paths = [{TOP: {"__init__.py": "", "m.py": r, "m.pyi": s, **common, "sub": deep}}]
+        return {"paths": paths, "extra": None, "pth": None}, {**opts, "target": "m"}
     if placement == "subpackage":
-        paths = [{TOP: {"__init__.py": "", "s": {"__init__.py": r, "__init__.pyi": s}, f"{gp.OTHER}.py": other, "sub": dict(deep)}}]
-        return {"paths": paths, "extra": None, "pth": None}, {"target": "s", "deep": True}
+        paths = [{TOP: {"__init__.py": "", "s": {"__init__.py": r, "__init__.pyi": s}, **common, "sub": deep}}]
+        return {"paths": paths, "extra": None, "pth": None}, {**opts, "target": "s"}
     if placement == "package":
-        paths = [{TOP: {"__init__.py": r, "__init__.pyi": s, f"{gp.OTHER}.py": other, "sub": dict(deep)}}]
-        return {"paths": paths, "extra": None, "pth": None}, {"target": None, "deep": True}
+        paths = [{TOP: {"__init__.py": r, "__init__.pyi": s, **common, "sub": deep}}]
+        return {"paths": paths, "extra": None, "pth": None}, {**opts, "target": None}
     if placement == "stubs-pkg":
         paths = [
-            {TOP: {"__init__.py": "", "m.py": r, f"{gp.OTHER}.py": other, "sub": {"__init__.py": "", "deep.py": r}}},
+            {TOP: {"__init__.py": "", "m.py": r, **common, "sub": {"__init__.py": "", "deep.py": r_deep}}},
             {f"{TOP}-stubs": {"__init__.pyi": "", "m.pyi": s, "sub": {"__init__.pyi": "", "deep.pyi": s}}},
         ]
-        return {"paths": paths, "extra": None, "pth": None}, {"target": "m", "find_stubs_package": True, "deep": True}
+        return {"paths": paths, "extra": None, "pth": None}, {**opts, "target": "m", "find_stubs_package": True}
     if placement == "top-module":
         paths = [{f"{TOP}.py": r, f"{TOP}.pyi": s}]
-        return {"paths": paths, "extra": None, "pth": None}, {"target": None}
+        return {"paths": paths, "extra": None, "pth": None}, {"target": None, "deep": False, "wild_primary": False, "wild_deep": False}
     raise HarnessError(f"unknown placement {placement}")
 
 
@@ -135,7 +145,7 @@ def _observe(top, target: str | None, with_deep: bool) -> dict:
     if mod is None or mod.is_alias or mod.kind.value != "module":
         obs = dict(MISSING)
     else:
-        obs = gp.observe(mod, skip=(gp.OTHER, "m", "s", "sub") if target is None else ())
+        obs = gp.observe(mod, skip=(gp.OTHER, gp.IMPL, "m", "s", "sub") if target is None else ())
         obs["file"] = _suffix(mod)
     if with_deep:
         d = find(top, "sub.deep")
@@ -147,19 +157,21 @@ def _observe(top, target: str | None, with_deep: bool) -> dict:
     return obs
 
 
-def load_merged(paths: list[Path], opts: dict, order) -> dict:
+def load_merged(paths: list[Path], opts: dict, order, request: str = TOP) -> dict:
     import griffe
 
+    loader = griffe.GriffeLoader(search_paths=list(paths), allow_inspection=False)
     with fs.listing_order(order):
-        top = call(
+        call(
             "total",
-            griffe.load,
-            TOP,
-            search_paths=list(paths),
-            allow_inspection=False,
+            loader.load,
+            request,
             find_stubs_package=bool(opts.get("find_stubs_package")),
-            what=f"griffe.load({TOP!r}) with stubs, discovery order {order!r}",
+            what=f"load({request!r}) with stubs, discovery order {order!r}",
         )
+    top = loader.modules_collection.members.get(TOP)
+    if top is None or top.is_alias:
+        return dict(MISSING)
     return _observe(top, opts["target"], opts.get("deep", False))
 
 
@@ -233,23 +245,26 @@ def check_case(case) -> list[Fail]:
     if placement == "top-module" and _uses_internal_alias(pair):
         raise HarnessError("internal alias in a top-module case")
     layout, opts = layout_for(case)
-    exp = gp.expected(pair)
-    exp_runtime_alone = gp.expected({"R": pair["R"], "S": {"doc": False, "members": []}})
+    def expectation(wildcard: bool):
+        alone = {"R": pair["R"], "S": {"doc": False, "members": []}, "W": pair.get("W", [])}
+        return gp.expected(pair, wildcard=wildcard, top=TOP), gp.expected(alone, wildcard=wildcard, top=TOP)
+
+    plain = expectation(False)
+    exp_primary = expectation(True) if opts["wild_primary"] else plain
+    exp_deep = expectation(True) if opts["wild_deep"] else plain
     fails: list[Fail] = []
     seen: set = set()
 
-    def judge(obs: dict, how: str, nested: str = "") -> None:
+    def judge(obs: dict, how: str, exps=None, nested: str = "") -> None:
         if obs.get("deep") is not None:
-            judge(obs["deep"], how + ", nested pair p.sub.deep", nested="nested:")
+            judge(obs["deep"], how + ", nested pair p.sub.deep", exps=exp_deep, nested="nested:")
+        before = len(fails)
+        _judge(obs, how, *(exps or exp_primary))
         if nested:
-            before = len(fails)
-            _judge(obs, how)
             for f in fails[before:]:
                 f.kind = nested + f.kind
-        else:
-            _judge(obs, how)
 
-    def _judge(obs: dict, how: str) -> None:
+    def _judge(obs: dict, how: str, exp: dict, exp_runtime_alone: dict) -> None:
         if obs.get("missing"):
             fails.append(Fail("keeps-runtime", "module-missing", f"[{placement}, {how}] the merged module is not in the loaded tree"))
             return
@@ -296,6 +311,27 @@ def check_case(case) -> list[Fail]:
                     what = "; ".join(d[2] for d in diffs[:3])
                 fails.append(Fail("order-independent", kind, f"[{placement}] merged module differs between discovery order 'listing sorted' and '{how}': {what}"))
                 judge(obs, how)
+        # the same package requested by the dotted path of a sub-module or member: the whole package is loaded all
+        # the same, so the merged modules must equal those obtained by requesting the top-level name
+        if first is not None:
+            names = [m["n"] for m in pair["R"]["members"]]
+            t = opts["target"]
+            dotted = [f"{TOP}.{t}"] if t else []
+            if names:
+                dotted.append(f"{TOP}.{t}.{names[0]}" if t else f"{TOP}.{names[0]}")
+            if opts.get("deep"):
+                dotted += [f"{TOP}.sub.deep", f"{TOP}.sub"]
+            if dotted:
+                request = dotted[case.get("req", 0) % len(dotted)]
+                try:
+                    obs = load_merged(paths, opts, "sorted", request=request)
+                except GriffeRaised as gr:
+                    obs = None
+                    if gr.fail.bucket not in {f.bucket for f in fails}:
+                        fails.append(gr.fail)
+                if obs is not None and obs != first:
+                    fails.append(Fail("request-independent", "dotted-request", f"[{placement}] merged modules after load({request!r}) differ from those after load({TOP!r})"))
+                    judge(obs, f"requested as {request!r}")
         # the merger itself, called with the two modules in either argument order (public griffe.merge_stubs):
         # the loader may or may not normalise the order in which it meets the two files, the merger must not care
         direct_first = None
@@ -306,7 +342,7 @@ def check_case(case) -> list[Fail]:
                 if gr.fail.bucket not in {f.bucket for f in fails}:
                     fails.append(gr.fail)
                 continue
-            judge(obs, f"merge_stubs called with the {who_first} module first")
+            judge(obs, f"merge_stubs called with the {who_first} module first", exps=plain)
             if direct_first is None:
                 direct_first = obs
             elif obs != direct_first:
@@ -316,7 +352,9 @@ def check_case(case) -> list[Fail]:
         # the producer API (implicit merge in set_member), both arrival orders; and, for -stubs packages, the
         # two-step loader sequence in which the stubs are already in the collection when the regular package arrives
         routes = [(f"set_member, {w} module first", lambda w=w: merge_by_set_member(pair, root, w)) for w in ("runtime", "stubs")]
-        if placement == "stubs-pkg":
+        if placement == "stubs-pkg" and not (opts["wild_primary"] or opts["wild_deep"]):
+            # (with wildcard-provided members the second load merges m.py into the stubs already in place before any
+            # wildcard is expanded: that is the in-package situation of the listed finding, not generated here)
             routes.append(("two-step load, stubs package first", lambda: load_in_two_steps(paths, opts)))
         reference = None
         for how, route in routes:
@@ -326,7 +364,7 @@ def check_case(case) -> list[Fail]:
                 if gr.fail.bucket not in {f.bucket for f in fails}:
                     fails.append(gr.fail)
                 continue
-            judge(obs, how)
+            judge(obs, how, exps=None if how.startswith("two-step") else plain)
             if reference is None:
                 reference = obs
             elif obs != reference and how.startswith("set_member"):
@@ -371,7 +409,39 @@ def _known_internal_alias(case, fail) -> bool:
     return path in hits
 
 
-KNOWN = {INTERNAL_ALIAS: _known_internal_alias}
+WILDCARD = "in-package-stubs-vs-wildcard-members"
+
+
+def _known_wildcard(case, fail) -> bool:
+    """Stubs merged while the package is being loaded (sibling m.pyi, sub-package __init__.pyi) meet the runtime module
+    before its wildcard imports are expanded: a name the module only gets through `from p._impl import *` does not exist
+    yet, the stub object is added as stub-only (runtime=False) and then blocks the expansion. Attributed only for
+    failures about such a wildcard-provided name in a module whose stubs are merged that way."""
+    if case.get("wild") != "all" or not isinstance(fail.detail, dict):
+        return False
+    s_names = {m["n"] for m in case["pair"]["S"]["members"]}
+    hit = {w["n"] for w in case["pair"].get("W", []) if w["n"] in s_names}
+    first = str(fail.detail.get("path", "")).replace("->", ".").split(".")[0]
+    if first not in hit:
+        return False
+    nested = "nested:" in fail.kind
+    return (nested and case["placement"] != "stubs-pkg") or (not nested and case["placement"] in ("sibling", "subpackage"))
+
+
+THROUGH_ALIAS = "stub-only-members-through-alias-lost"
+
+
+def _known_through_alias(case, fail) -> bool:
+    """Stubs merged into a class the runtime module only has as an alias (here: through its wildcard import): members
+    the stubs add to that class are set on the Alias object, whose `members` is a throw-away dictionary, and vanish.
+    Attributed only for a lost stub-only member of exactly such a class."""
+    if "member-lost:stub-only" not in fail.kind or not isinstance(fail.detail, dict):
+        return False
+    hits = {f"{cls}->.{name}" for cls, name in gp.stub_only_in_wildcard_classes(case["pair"])}
+    return fail.detail.get("path") in hits
+
+
+KNOWN = {INTERNAL_ALIAS: _known_internal_alias, WILDCARD: _known_wildcard, THROUGH_ALIAS: _known_through_alias}
 
 
 def strategy(ctx):
@@ -380,13 +450,16 @@ def strategy(ctx):
     def steer(case):
         if INTERNAL_ALIAS in ctx.known:
             case["pair"], case["steered"] = gp.steer_internal_aliases(case["pair"])
+        case["wild"] = "load-package" if WILDCARD in ctx.known else "all"
+        if THROUGH_ALIAS in ctx.known:
+            case["pair"], case["steered_through_alias"] = gp.steer_stub_only_in_wildcard_classes(case["pair"])
         return case
 
     @st.composite
     def cases(draw):
         placement = draw(st.sampled_from(["sibling", "sibling", "subpackage", "subpackage", "package", "package", "stubs-pkg", "stubs-pkg", "top-module"]))
         pair = draw(gp.pairs(TOP, internal_aliases=placement != "top-module"))
-        return steer({"pair": pair, "placement": placement})
+        return steer({"pair": pair, "placement": placement, "req": draw(st.integers(0, 5))})
 
     return cases()
 
@@ -397,6 +470,10 @@ def run_shard(ctx) -> None:
     def describe(case):
         if case.get("steered"):
             ctx.excluded(INTERNAL_ALIAS, case["steered"])
+        if case.get("steered_through_alias"):
+            ctx.excluded(THROUGH_ALIAS, case["steered_through_alias"])
+        if case.get("wild") == "load-package" and case["pair"].get("W") and case["placement"] != "top-module":
+            ctx.excluded(WILDCARD, 1 if case["placement"] == "stubs-pkg" else 2 if case["placement"] == "package" else 3)
         return _describe(case)
 
     ctx.run_hypothesis(strategy(ctx), check_case, max_examples=ctx.scale(600, 25000), describe=describe)
